@@ -5,6 +5,7 @@ import Xc.Lemmas.Api
 import Xc.Lemmas.Fix
 import Xc.Lemmas.Scrypt
 import Xc.Lemmas.Sunmd5
+import Xc.Lemmas.Gost
 import Xc.Thm.C18
 namespace Xc.C01
 open Xc
@@ -26,7 +27,7 @@ For a method `m`, `C01_m_fix` is the authentication round trip at the level of t
 whatever setting `s` produced `H`, hashing the same phrase with `H` as the setting reproduces `H`.
 `C01_m_hashpart` is the second clause: `H` splits as `S ++ digestText`, and `S ++ t` gives `H` for EVERY text `t`
 (so the hash portion of a stored hash has no influence, and neither has anything after it).
-All of it holds for arbitrary digest functions `D`.  The method not listed here (gost-yescrypt) have no such theorem yet: for them the clause rests on the oracle of checks/c01.py. -/
+All of it holds for arbitrary digest functions `D`; all sixteen methods have their `_fix` theorem. -/
 
 theorem C01_md5crypt_fix (D : Digests) (p s H : Bytes) (h : cryptMd5 D p s = .ok H) : cryptMd5 D p H = .ok H := by
   obtain ⟨salt, e, f⟩ := cryptMd5_refeed h
@@ -140,6 +141,11 @@ theorem C01_scrypt_fix (D : Digests) (p s H : Bytes) (h : cryptScrypt D p s = .o
 theorem C01_sunmd5_fix (D : Digests) (p s H : Bytes) (h : cryptSunmd5 D p s = .ok H) : cryptSunmd5 D p H = .ok H :=
   cryptSunmd5_fix D p s H h
 
+/-- gost-yescrypt (`$gy$`): the inner `$y$` call re-reads its own parameters and salt; the outer hash is keyed by the same
+    leading part of the setting; the result is short enough to pass the size pre-check again (parameters ≤ 76, salt ≤ 86 characters) -/
+theorem C01_gost_fix (D : Digests) (hD : D.WF) (p s H : Bytes) (h : cryptGost D p s = .ok H) : cryptGost D p H = .ok H :=
+  cryptGost_fix D hD p s H h
+
 /-- non-vacuity: concrete settings meet the hypotheses (kernel-evaluated with the executable digests abstracted away) -/
 example (D : Digests) : ∃ H, cryptMd5 D [112, 119] [36, 49, 36, 115, 97, 108, 116] = .ok H := ⟨_, rfl⟩
 example (D : Digests) : ∃ H, cryptDes D [112, 119] [97, 98] = .ok H := ⟨_, rfl⟩
@@ -237,19 +243,12 @@ theorem tag_facts : C18.tagOf .md5crypt = Gen.md5_salt_prefix ∧ C18.tagOf .sha
   refine ⟨by decide, by decide, by decide, by decide, by decide, by decide, by decide, by decide, by decide, by decide, by decide, by decide, ?_⟩
   intro m; cases m <;> decide
 
-/-- the methods for which the front-end round trip is proved (C01_*_fix) -/
-def proved (m : Method) : Bool :=
-  match m with
-  | .gost_yescrypt => false
-  | _ => true
-
 /-- **C01, both clauses, at the level of the API** (`do_crypt`: length check, character filter, dispatch, method):
     for every configuration whose table is `C18.TableOk` (the tree's is: `C18.tableOk_tree`), arbitrary digests, every phrase
-    and every setting dispatched to one of the twelve proved methods: the result is accepted again, dispatched to the
+    and every setting, whichever of the sixteen methods it is dispatched to: the result is accepted again, dispatched to the
     same table row, and reproduces itself. -/
 theorem C01_roundtrip (cfg : Config) (hT : C18.TableOk cfg.table = true) (D : Digests) (hD : D.WF) (p s H : Bytes)
-    (h : cryptPure cfg D p s = .ok H)
-    (hm : ∀ r, getHashFn cfg.table s = some r → proved r.crypt = true) :
+    (h : cryptPure cfg D p s = .ok H) :
     cryptPure cfg D p H = .ok H := by
   have hfilter := (C01_result_passes_filter cfg D hD p s H h).1
   unfold cryptPure at h ⊢
@@ -258,7 +257,6 @@ theorem C01_roundtrip (cfg : Config) (hT : C18.TableOk cfg.table = true) (D : Di
   split at h; · cases h
   split at h; · cases h
   rename_i r hr
-  have hpr := hm r hr
   simp only [hlen, if_false, hfilter, Bool.false_eq_true]
   have hT' := hT
   simp only [C18.TableOk, Bool.and_eq_true, List.all_eq_true] at hT'
@@ -285,11 +283,22 @@ theorem C01_roundtrip (cfg : Config) (hT : C18.TableOk cfg.table = true) (D : Di
     refine ⟨he, hsne, ?_, ?_, ?_⟩ <;> rw [hH] <;> simp [cat, isDes_a64']
   have sne : r.pfx = [] → s ≠ [] := by
     intro he hs; subst hs
-    cases hc : r.crypt <;> rw [hc] at h hpr rtag <;> simp only [cryptMethod, proved] at h hpr <;> try (cases hpr; done)
+    cases hc : r.crypt <;> rw [hc] at h rtag <;> simp only [cryptMethod] at h
     all_goals first
       | (rw [he] at rtag; have := t13 _ rtag.symm; simp at this; done)
       | (simp [cryptBig, cryptDes, parseDesSalt, cat, asciiToBin] at h; done)
-  cases hc : r.crypt <;> rw [hc] at h hpr rtag <;> simp only [cryptMethod, proved] at h hpr ⊢ <;> try (cases hpr; done)
+  cases hc : r.crypt <;> rw [hc] at h rtag <;> simp only [cryptMethod] at h ⊢
+  case gost_yescrypt =>
+    have hne : r.pfx ≠ [] := by rw [rtag]; decide
+    have hfix := C01_gost_fix D hD p s H h
+    refine ⟨redispatch cfg.table hT s H r hr (Or.inl ⟨hne, ?_⟩), hfix⟩
+    unfold cryptGost at hfix
+    split at hfix; · cases hfix
+    split at hfix; · cases hfix
+    rename_i hpre
+    simp only [Bool.not_eq_true, Bool.not_eq_false] at hpre
+    have := hasPrefix_split hpre
+    rw [rtag, this]; exact ⟨_, rfl⟩
   case scrypt =>
     have hne : r.pfx ≠ [] := by rw [rtag]; decide
     have hfix := C01_scrypt_fix D p s H h
